@@ -316,6 +316,18 @@ def r6_no_final(ctx, chk, rule="C09.1"):
         chk.ok(rule, f.where(), "no explicit empty-final guard in solve_reachability; the empty-list witness of check_game decides this rule")
 
 
+def _validation_body(ctx):
+    """When check_next_states only hands over to another method (`self._check_transitions(self.next_states)`), that method's name."""
+    f = ctx.prog.resolve_method("Node", "check_next_states")
+    if f is None:
+        return None
+    body = [b for b in f.node.body if not (isinstance(b, ast.Expr) and isinstance(b.value, ast.Constant))]
+    if len(body) == 1 and isinstance(body[0], (ast.Expr, ast.Return)) and isinstance(body[0].value, ast.Call) and isinstance(body[0].value.func, ast.Attribute) \
+            and isinstance(body[0].value.func.value, ast.Name) and body[0].value.func.value.id == "self":
+        return body[0].value.func.attr
+    return None
+
+
 def _always_calls(ctx, f, target, depth):
     """on every normal path f calls `target`, directly or through a function that itself always does"""
     if depth > 3:
@@ -382,6 +394,8 @@ def r4_placement(ctx, chk, rule="C09.4"):
         chk.ok(rule, node_init.where(cn[0]), "Node.__init__ always runs check_next_states()")
     elif not cn and _always_calls(ctx, node_init, "check_next_states", 0):
         chk.ok(rule, node_init.where(), "Node.__init__ always runs check_next_states() (through a helper that it calls on every path)")
+    elif not cn and _validation_body(ctx) is not None and _always_calls(ctx, node_init, _validation_body(ctx), 0):
+        chk.ok(rule, node_init.where(), "Node.__init__ always runs %s(), the function check_next_states() itself hands over to (the checks are judged there, C09.1)" % _validation_body(ctx))
     else:
         chk.violation(rule, node_init.where(), "Node.__init__ does not always run check_next_states()", expected="unconditional call",
                       found="%d call(s)" % len(cn), construct="Node.__init__ validation call")
